@@ -41,6 +41,7 @@ def obligations(ctx):
     ob.finish(E, nat)
     value_compare(ctx)
     value_arithmetic(ctx)
+    mint_builder_amounts(ctx)
 
 
 # ---------------------------------------------------------------- Value comparison == component-wise comparison
@@ -221,3 +222,113 @@ def value_arithmetic(ctx):
                     vals.append(le_bytes(mval(m, z3.Int("q_%s_%s_%s" % (side, p, a))), 8))
             return "e2n_value_arith", vals
         ob.finish(agg, nat)
+
+
+# ---------------------------------------------------------------- signed amounts accumulated by the mint builder stay inside Int's range
+IMIN, IMAX = -(1 << 64), (1 << 64) - 1
+
+
+def mint_builder_amounts(ctx):
+    """'every signed integer obtainable through the public API lies within -2^64..2^64-1': MintBuilder::add_asset / set_asset
+    accumulate signed amounts per (policy, asset name).  One step from a state in which the policy already holds the asset with an
+    arbitrary in-range amount (and from the empty state), with an arbitrary in-range amount offered: on Ok the stored amount is
+    old + offered (add) / offered (set) and lies within the range; MintBuilder::build hands out exactly the stored amounts and
+    refuses a zero (the mint field is a multiasset<nonZeroInt64>, C03)."""
+    P = ctx.P
+    ob = Obligation(ctx, "c14_e2_mint_builder_amounts_in_range", "policy absent / present (native or Plutus) holding the asset with any in-range amount; offered amount: every Int of -2^64..2^64-1; add and set",
+                    ["MintBuilder::add_asset", "MintBuilder::set_asset", "MintBuilder::update_mint_value", "MintBuilder::build", "MintAssets::insert"], fallback_native="e2n_c14_mint_builder_range")
+    agg = Engine(P)
+    nok = 0
+    for fn in ("add_asset", "set_asset"):
+        for pre in ("absent", "Native", "Plutus"):
+            E = Engine(P, max_loop=4)
+            E.U = agg.U
+            old, off = E.sym_int("old_amount", "i128"), E.sym_int("offered_amount", "i128")
+            E.assume(z3.And(old.t >= IMIN, old.t <= IMAX, off.t >= IMIN, off.t <= IMAX))
+            E.extra_intrinsics[r"MintBuilder::validate_mint_witness$"] = lambda E_, c, a: VEnum("Result", "Ok", [UNIT])
+            E.extra_intrinsics[r"::script_hash$"] = lambda E_, c, a: VLazy("policy", "ScriptHash")
+            def mk(E=E, pre=pre, old=old, off=off):
+                kind = "Native" if pre != "Plutus" else "Plutus"
+                if kind == "Native":
+                    w = VStruct("MintWitness", [VEnum("MintWitnessEnum", "NativeScript", [VLazy("nsrc", "NativeScriptSourceEnum")])])
+                else:
+                    w = VStruct("MintWitness", [VEnum("MintWitnessEnum", "Plutus", [VLazy("psrc", "PlutusScriptSourceEnum"), VLazy("red", "Redeemer")])])
+                entries = []
+                if pre != "absent":
+                    am = VSeq([VStruct("()", [VLazy("name", "AssetName"), VStruct("Int", [VInt(old.t, "i128")])])], "map")
+                    sm = VEnum("ScriptMint", "Native", [E.mk_struct("NativeMints", script=VLazy("nsrc", "NativeScriptSourceEnum"), mints=am)]) if pre == "Native" else \
+                        VEnum("ScriptMint", "Plutus", [E.mk_struct("PlutusMints", script=VLazy("psrc", "PlutusScriptSourceEnum"), redeemer=VLazy("red", "Redeemer"), mints=am)])
+                    entries.append(VStruct("()", [VLazy("policy", "ScriptHash"), sm]))
+                mb = E.mk_struct("MintBuilder", mints=VSeq(entries, "map"))
+                return [R_(mb, "self"), R_(w, "mint"), R_(VLazy("name", "AssetName"), "asset_name"), R_(VStruct("Int", [VInt(off.t, "i128")]), "amount")]
+            try:
+                outs = E.explore("MintBuilder::%s" % fn, mk, max_paths=200)
+            except Unsupported as e:
+                ob.fail("%s from %s: cannot be executed (%s)" % (fn, pre, str(e)[:200])); continue
+            for o in outs:
+                if o.kind != "return":
+                    ob.vc("no panic in %s (%s %s)" % (fn, o.kind, o.msg[:80]), o.pc, z3.BoolVal(False)); continue
+                if o.value.variant != "Ok":
+                    continue
+                nok += 1
+                E.enter(o)
+                mb = VM_deref(E, o.args[0])
+                ents = VM_deref(E, mb.fields[P.struct_fields["MintBuilder"].index("mints")]).items
+                if len(ents) != 1:
+                    ob.violation("%s from %s: %d policies stored" % (fn, pre, len(ents))); continue
+                sm = VM_deref(E, VM_deref(E, ents[0]).fields[1])
+                inner = VM_deref(E, sm.fields[0])
+                mints = VM_deref(E, inner.fields[P.struct_fields["NativeMints" if sm.variant == "Native" else "PlutusMints"].index("mints")]).items
+                if len(mints) != 1:
+                    ob.violation("%s from %s: %d assets stored" % (fn, pre, len(mints))); continue
+                stored = VM_deref(E, VM_deref(E, mints[0]).fields[1]).fields[0].t
+                want = off.t if (fn == "set_asset" or pre == "absent") else old.t + off.t
+                ob.vc("%s from %s: the stored amount is the exact result" % (fn, pre), o.pc, stored == want, info=dict(fn=fn, pre=pre))
+                ob.vc("%s from %s: the stored amount lies within -2^64..2^64-1" % (fn, pre), o.pc, z3.And(stored >= IMIN, stored <= IMAX), info=dict(fn=fn, pre=pre))
+            agg.stats["paths"] += E.stats["paths"]; agg.stats["feasibility_queries"] += E.stats["feasibility_queries"]; agg.stats["functions"] |= E.stats["functions"]
+    # build(): hands out the stored amounts, refuses zero
+    for kind in ("Native", "Plutus"):
+        E = Engine(P, max_loop=4)
+        E.U = agg.U
+        amt = E.sym_int("stored_amount", "i128")
+        E.assume(z3.And(amt.t >= IMIN, amt.t <= IMAX))
+        def mk(E=E, kind=kind, amt=amt):
+            am = VSeq([VStruct("()", [VLazy("name", "AssetName"), VStruct("Int", [VInt(amt.t, "i128")])])], "map")
+            sm = VEnum("ScriptMint", "Native", [E.mk_struct("NativeMints", script=VLazy("nsrc", "NativeScriptSourceEnum"), mints=am)]) if kind == "Native" else \
+                VEnum("ScriptMint", "Plutus", [E.mk_struct("PlutusMints", script=VLazy("psrc", "PlutusScriptSourceEnum"), redeemer=VLazy("red", "Redeemer"), mints=am)])
+            return [R_(E.mk_struct("MintBuilder", mints=VSeq([VStruct("()", [VLazy("policy", "ScriptHash"), sm])], "map")), "self")]
+        try:
+            outs = E.explore("MintBuilder::build", mk, max_paths=100)
+        except Unsupported as e:
+            ob.fail("build (%s): cannot be executed (%s)" % (kind, str(e)[:200])); continue
+        okb = 0
+        for o in outs:
+            if o.kind != "return":
+                ob.vc("no panic in build (%s %s)" % (o.kind, o.msg[:80]), o.pc, z3.BoolVal(False)); continue
+            if o.value.variant != "Ok":
+                continue
+            okb += 1
+            ob.vc("build (%s policy) succeeds only with a non-zero amount (mint = multiasset<nonZeroInt64>)" % kind, o.pc, amt.t != 0, info=dict(fn="build", pre=kind))
+        if okb == 0:
+            ob.fail("build (%s): no Ok path" % kind)
+        agg.stats["paths"] += E.stats["paths"]; agg.stats["feasibility_queries"] += E.stats["feasibility_queries"]; agg.stats["functions"] |= E.stats["functions"]
+    if nok < 6:
+        ob.fail("expected Ok paths for add / set from three pre-states, saw %d" % nok)
+    def nat(m, info=None):
+        info = info or {}
+        def enc(v):
+            return [[1 if v < 0 else 0], le_bytes(abs(v) & U64, 8), [1 if abs(v) > U64 else 0]]
+        old_v = mval(m, z3.Int("old_amount")) if info.get("fn") != "build" else 5
+        return "e2n_c14_mint_builder_range", [[{"add_asset": 0, "set_asset": 1, "build": 2}.get(info.get("fn"), 0)], [{"absent": 0, "Native": 1, "Plutus": 2}.get(info.get("pre"), 0)]] + \
+                                               enc(old_v) + enc(mval(m, z3.Int("offered_amount")))
+    ob.finish(agg, nat)
+
+
+def R_(v, name="tmp"):
+    return VRef(Cell(v, name))
+
+
+def VM_deref(E, v):
+    while isinstance(v, VRef):
+        v = E.read_ref(v)
+    return v
